@@ -1,5 +1,7 @@
 pub mod c01;
+pub mod c02;
 pub mod c04;
+pub mod c08;
 pub mod lincheck;
 pub mod solvers;
 pub mod c05;
@@ -9,6 +11,8 @@ use crate::runner::{run, RunArgs};
 pub fn dispatch(id: &str, args: &RunArgs) -> i32 {
     match id {
         "C01" => run(&c01::C01, args),
+        "C02" => run(&c02::C02, args),
+        "C08" => run(&c08::C08, args),
         "C04" => run(&c04::C04, args),
         "C05" => run(&c05::C05, args),
         _ => {
